@@ -250,7 +250,7 @@ def run_case(spec):
     def tap(fw, options):
         res_log.append((fw.resolution, options["radius_final"]))
         st_ = orig(fw, options)
-        step_log.append((float(np.linalg.norm(st_[0] + st_[1])), fw.resolution))
+        step_log.append((float(np.linalg.norm(st_[0] + st_[1])), fw.resolution, np.array(fw.x_best, copy=True)))
         return st_
 
     cframework.TrustRegion.get_trust_region_step = tap
@@ -278,12 +278,17 @@ def run_case(spec):
         stagnation += 1
     # length of the final run of trial steps that were too short to be evaluated (<= half the resolution)
     short = 0
-    for sn, rs in reversed(step_log):
+    for sn, rs, _ in reversed(step_log):
         if not (0.0 < sn <= 0.5 * rs):
             break
         short += 1
+    centre_err = centre_viol = None
+    if step_log and step_log[-1][2].shape == xs.shape:
+        centre = step_log[-1][2]
+        centre_err = float(np.linalg.norm(centre - xs) / max(1.0, np.linalg.norm(xs)))
+        centre_viol = inst["viol"](centre)
     data = dict(family=fam, status=int(r.status), success=bool(r.success), err=err, viol=v, nfev=int(r.nfev),
-                final_unevaluated_short_steps=short,
+                final_unevaluated_short_steps=short, centre_err=centre_err, centre_viol=centre_viol,
                 final_iterations_at_constant_resolution=stagnation, n=spec["n"],
                 last_resolution=float(res_log[-1][0]) if res_log else None)
     if err > TOLS[fam]:
@@ -304,11 +309,13 @@ def sig_short_step_infeasible(spec, fail):
     but violates the equalities by a few 1e-8 (above feasibility_tol); the step that would restore
     feasibility is shorter than half the resolution, so it is never evaluated and the resolution is
     reduced down to radius_final: status 0, success=False, and the filter returns the evaluated point
-    of least penalised violation (within 2e-4 of the minimiser)."""
+    of least penalised merit (within 1e-2 of the minimiser)."""
     d = fail.data
+    ce, cv = d.get("centre_err"), d.get("centre_viol")
     return (fail.clause in ("C04.feas.lineq", "C04.dist.lineq", "C04.status.lineq") and d.get("status") == 0
-            and d.get("err", 1) <= 2e-4 and FEAS_TOL < d.get("viol", 1) <= 2e-4
-            and d.get("final_unevaluated_short_steps", 0) >= 3)
+            and d.get("err", 1) <= 1e-2 and FEAS_TOL < d.get("viol", 1) <= 1e-2
+            and ce is not None and ce <= 1e-6 and FEAS_TOL < cv <= 1e-5
+            and d.get("final_unevaluated_short_steps", 0) >= 1)
 
 
 SIGNATURES = {
